@@ -10,7 +10,7 @@ ID = "C19"
 OPT_QUICK_ALL = True      # every partition also in a child interpreter started with -O
 LEVEL = "exploration"
 TECHNIQUE = "complete enumeration of the 4 binding-presence combinations (one fresh interpreter each) x every module import x every command class x every device-string/mode/initiator call of the three factories, file opens observed by a sys.addaudithook recorder and connections by the stand-in Context"
-RULE = ("9 combinations of {not installed, present, installed but unloadable (import raises a plain ImportError)} for (sgio, iscsi) x 4 orders of the factory calls (as listed, reversed, explicit-names-first, interleaved), each in its own subprocess: import of every module under pyscsi; construction + CDB encode/decode "
+RULE = ("9 combinations of {not installed, present, installed but unloadable (import raises a plain ImportError)} for (sgio, iscsi) x 4 orders of the factory calls (and, for the 4 classic combinations, 6 unusual host names: 64 characters, empty label, non-ASCII, empty, format characters, long FQDN) (as listed, reversed, explicit-names-first, interleaved), each in its own subprocess: import of every module under pyscsi; construction + CDB encode/decode "
         "of each of the 42 command classes; the facade over a plain recording object; init_device / SCSIDevice / ISCSIDevice x 25 device strings "
         "(existing node, directories, absent node, seven well-formed iSCSI URLs incl. user%password@ credentials, IPv6 portal and mixed case, near-miss prefixes in both families, empty, relative, upper-case) x "
         "read-only/read-write x explicit/default initiator name. Non-trivial = at least one binding missing or a device string that is not the "
@@ -25,15 +25,18 @@ SERIAL = False
 
 def partitions(tier):
     # 0 = not installed, 1 = present, 2 = installed but unloadable (import raises a plain ImportError: shared library missing)
-    return [[s, i, o] for s in (0, 1, 2) for i in (0, 1, 2) for o in range(4)]
+    parts = [[s, i, o] for s in (0, 1, 2) for i in (0, 1, 2) for o in range(4)]
+    # host names other than the machine's own (64 characters, empty label, non-ASCII, empty, format characters, long FQDN)
+    parts += [[s, i, 0, h] for s in (0, 1) for i in (0, 1) for h in range(1, 7)]
+    return parts
 
 
-def run_child(sg, isc, order=0):
+def run_child(sg, isc, order=0, host=0):
     env = dict(os.environ)
     env["PYTHONHASHSEED"] = "0"
     root = os.path.dirname(os.path.dirname(os.path.dirname(os.path.abspath(__file__))))
     env["PYTHONPATH"] = root
-    p = subprocess.run([sys.executable] + (["-O"] if sys.flags.optimize else []) + ["-m", "vf.props.c19_child", os.environ.get("VF_REPO", "/repo"), str(sg), str(isc), str(order)],
+    p = subprocess.run([sys.executable] + (["-O"] if sys.flags.optimize else []) + ["-m", "vf.props.c19_child", os.environ.get("VF_REPO", "/repo"), str(sg), str(isc), str(order), str(host)],
                        capture_output=True, text=True, env=env, cwd=root, timeout=600)
     if p.returncode != 0:
         # the library could not even be driven in this configuration
@@ -42,9 +45,10 @@ def run_child(sg, isc, order=0):
 
 
 def replay(case):
-    sg, isc, order, kind, c = case
+    sg, isc, order, kind, c = case[:5]
+    host = case[5] if len(case) > 5 else 0
     out = []
-    for k, cc, v in run_child(sg, isc, order):
+    for k, cc, v in run_child(sg, isc, order, host):
         if k == kind and cc == c:
             out += [tuple(x) for x in v]
     return out
@@ -52,9 +56,10 @@ def replay(case):
 
 def run_partition(part, tier, seed):
     acc = Acc(seed)
-    sg, isc, order = part
-    for kind, c, v in run_child(sg, isc, order):
-        case = [sg, isc, order, kind, c]
+    sg, isc, order = part[:3]
+    host = part[3] if len(part) > 3 else 0
+    for kind, c, v in run_child(sg, isc, order, host):
+        case = [sg, isc, order, kind, c] + ([host] if host else [])
         trivial = sg == 1 and isc == 1 and (kind != "factory" or (isinstance(c, list) and c[1].endswith("node1")))
         acc.case(case, nontrivial=not trivial, key=repr(case))
         for k, w in v:
